@@ -125,7 +125,9 @@ CHECKS = {
         text="TLC explores, for all 24 extracted field recognisers, Canon_f within L(impl_f) within Liberal_f and all 276 pairwise disjointness products for strings of every length; witnesses are replayed. All 24 singletons, ordered pairs (200 seeded / all 552), "
              "each field absent in turn, permutations of 5 fields, seeded subsets / permutations of all 24 with values containing quotes, '=', other fields' names, inner blanks and non-ASCII, and all values of <= 2 symbols are parsed for real; "
              "TLC decodes every field from its own line (Lines!DecodeField), applies the documented defaults and judges all 24 observed values and MissingRequiredField (Props!C10V). "
-             "Values also carry ~65 special code points and seeded ones from the whole code space and keyword-like words; a quarter of the bodies go to Metadata.from_chart_lines directly as each of 9 kinds of Iterable[str].",
+             "Values also carry ~65 special code points and seeded ones from the whole code space and keyword-like words; a quarter of the bodies go to Metadata.from_chart_lines directly as each of 9 kinds of Iterable[str]. "
+             "SongSection.tla is the decoding in code order (field after field, each scanning all lines; two wrong designs - last line wins, presence by truthiness - must fail); all 2 380 (30 941) bodies of its scope, "
+             "a field named twice and zero values included, are replayed through the section-level entry point and judged by C10V, the model's first-line-wins prediction compared as drift. Every integer field is written as 0 / 00 / 000 (a present Resolution is never reported missing).",
         design="5 (C10)", technique="TLC product-automaton model checking of 24 extracted recognisers + witness replay + TLC trace validation with in-spec field decoding"),
 }
 
